@@ -159,12 +159,14 @@ Section WithTables.
     c_iso security_tuple security_untuple (c_tuple2 (c_uint_v two64) (c_tag24 (c_cose_key tb))).
 
   (* ---- DeviceEngagement: { 0: version, 1: security, 2: methods, 3: server methods, 4: protocol info };
-     the serialiser never writes key 4 ---- *)
+     key 4 (RFU) is carried unchanged: whatever Value the map holds under 4 (null included) is stored
+     and written back last (fix 7fcb6ed) ---- *)
   Definition version_bytes : bytes := bytes_of_string (tb_engagement_version tb).
   Definition engagement_to_cbor (e : device_engagement) : cbor :=
     CMap ([(CUInt 0, CText (de_version e)); (CUInt 1, enc c_security (de_security e))]
           ++ opt_entry (CUInt 2) (option_map (enc (c_nelist c_method)) (de_methods e))
-          ++ opt_entry (CUInt 3) (option_map (enc c_server) (de_server e))).
+          ++ opt_entry (CUInt 3) (option_map (enc c_server) (de_server e))
+          ++ opt_entry (CUInt 4) (de_protocol_info e)).
 
   Definition opt_dec {T} (c : codec T) (o : option cbor) : option (option T) :=
     match o with None => Some None | Some v => option_map Some (dec c v) end.
@@ -203,8 +205,8 @@ Section WithTables.
   Definition server_wf (s : server_methods) : Prop := opt_P token_P (srm_web_api s) /\ opt_P token_P (srm_oidc s).
   Definition security_wf (s : security) : Prop :=
     uint_P two64 (sec_cipher_suite s) /\ tag24_P (c_cose_key tb) (sec_key s).
-  (* protocol_info is RFU: "should for now be none" *)
+  (* protocol_info is RFU: any well-formed CBOR value *)
   Definition engagement_wf (e : device_engagement) : Prop :=
     de_version e = version_bytes /\ security_wf (de_security e) /\ opt_P (ne_P method_wf) (de_methods e) /\
-    opt_P server_wf (de_server e) /\ de_protocol_info e = None.
+    opt_P server_wf (de_server e) /\ opt_P value_ok (de_protocol_info e).
 End WithTables.
